@@ -26,22 +26,82 @@ class _Continue(Exception):
     pass
 
 
+class _Return(Exception):
+    def __init__(self, value=None):
+        self.value = value
+
+
 class Obj:
     def __init__(self, **kw):
         self.__dict__.update(kw)
 
 
 class Sim:
-    def __init__(self, env: Dict[str, Any]):
+    def __init__(self, env: Dict[str, Any], methods: Dict[str, ast.FunctionDef] = None, classes: Dict[str, ast.ClassDef] = None, shared: "Sim" = None):
+        """methods: name -> FunctionDef for `self.<name>(...)` and `<obj>.<name>(...)` calls that are interpreted;
+        classes: name -> ClassDef of dataclasses that may be constructed."""
         self.env = dict(env)
-        self.pops = 0
-        self.finally_calls: List[Any] = []
-        self.steps = 0
+        self.methods = methods or {}
+        self.classes = classes or {}
+        root = shared or self
+        self.root = root
+        if shared is None:
+            self.pops = 0
+            self.finally_calls: List[Any] = []
+            self.steps = 0
+            self.events: List[Any] = []  # ("emit", OP) / ("stmt", node-object, [contexts on self.loop_stack])
+
+    def _construct(self, cname: str, e: ast.Call) -> "Obj":
+        cd = self.classes[cname]
+        o = Obj(_cls=cname)
+        for st in cd.body:
+            if isinstance(st, ast.AnnAssign) and isinstance(st.target, ast.Name):
+                v = st.value
+                if v is None:
+                    continue
+                if isinstance(v, ast.Call) and norm(v.func) == "field":
+                    kw = {k.arg: k.value for k in v.keywords}
+                    df = norm(kw.get("default_factory")) if "default_factory" in kw else None
+                    setattr(o, st.target.id, [] if df == "list" else ({} if df == "dict" else None))
+                else:
+                    setattr(o, st.target.id, self.ev(v))
+        for k in e.keywords:
+            setattr(o, k.arg, self.ev(k.value))
+        if e.args:
+            raise Unsupported("positional constructor arguments")
+        return o
+
+    def _invoke(self, fd: ast.FunctionDef, self_obj: Any, e: ast.Call) -> Any:
+        params = [a.arg for a in fd.args.args]
+        defaults = fd.args.defaults
+        env: Dict[str, Any] = {"None": None, "True": True, "False": False}
+        vals = [self.ev(a) for a in e.args]
+        names = params[1:] if params and params[0] == "self" else params
+        if params and params[0] == "self":
+            env["self"] = self_obj
+        for i, nm in enumerate(names):
+            if i < len(vals):
+                env[nm] = vals[i]
+        for k in e.keywords:
+            env[k.arg] = self.ev(k.value)
+        for nm, d in zip(reversed(names), reversed(defaults)):
+            if nm not in env:
+                env[nm] = self.ev(d)
+        for nm in names:
+            if nm not in env:
+                raise Unsupported(f"missing argument {nm}")
+        sub = Sim(env, self.methods, self.classes, shared=self.root)
+        body = [x for x in fd.body if not (isinstance(x, ast.Expr) and isinstance(x.value, ast.Constant))]
+        try:
+            sub.run(body)
+        except _Return as r:
+            return r.value
+        return None
 
     # ------------------------------------------------------------ expressions
     def ev(self, e: ast.AST) -> Any:
-        self.steps += 1
-        if self.steps > 5000:
+        self.root.steps += 1
+        if self.root.steps > 20000:
             raise Unsupported("too many steps")
         if isinstance(e, ast.Constant):
             return e.value
@@ -124,14 +184,34 @@ class Sim:
             if fn == "self._emit":
                 op = self.ev(e.args[0])
                 if op == ("OP", "POP"):
-                    self.pops += 1
+                    self.root.pops += 1
+                if isinstance(op, tuple) and op[0] == "OP":
+                    self.root.events.append(("emit", op[1]))
                 return 0
             if fn == "self._emit_jump":
+                op = self.ev(e.args[0]) if e.args else None
+                if isinstance(op, tuple) and op[0] == "OP":
+                    self.root.events.append(("emit", op[1]))
                 return 0
             if fn == "self._emit_pending_finally_blocks":
-                self.finally_calls.append([self.ev(a) for a in e.args])
+                self.root.finally_calls.append([self.ev(a) for a in e.args])
                 return None
-            if fn.endswith(".append") or fn.endswith("_jumps.append"):
+            if fn in ("self._compile_statement", "self._compile_expression"):
+                what = self.ev(e.args[0]) if e.args else None
+                me = self.env.get("self")
+                snap = list(getattr(me, "loop_stack", [])) if me is not None else []
+                self.root.events.append(("stmt" if fn.endswith("statement") else "expr", what, snap))
+                return None
+            if isinstance(e.func, ast.Name) and e.func.id in self.classes:
+                return self._construct(e.func.id, e)
+            if isinstance(e.func, ast.Attribute) and e.func.attr in self.methods and not fn.startswith("self._emit_jump"):
+                recv = self.ev(e.func.value)
+                if isinstance(recv, Obj):
+                    return self._invoke(self.methods[e.func.attr], recv, e)
+            if isinstance(e.func, ast.Attribute) and e.func.attr == "append" and e.args:
+                base = self.ev(e.func.value)
+                if isinstance(base, list):
+                    base.append(self.ev(e.args[0]))
                 return None
             if fn == "self.loop_stack.index" and e.args:
                 return self.ev(ast.Attribute(value=ast.Name(id="self", ctx=ast.Load()), attr="loop_stack", ctx=ast.Load())).index(self.ev(e.args[0]))
@@ -177,6 +257,8 @@ class Sim:
             raise _Break()
         elif isinstance(s, ast.Continue):
             raise _Continue()
+        elif isinstance(s, ast.Return):
+            raise _Return(self.ev(s.value) if s.value is not None else None)
         elif isinstance(s, ast.Raise):
             raise Aborted()
         elif isinstance(s, ast.Expr):
@@ -189,6 +271,11 @@ class Sim:
     def _assign(self, t: ast.AST, v: Any) -> None:
         if isinstance(t, ast.Name):
             self.env[t.id] = v
+        elif isinstance(t, ast.Attribute):
+            base = self.ev(t.value)
+            if not isinstance(base, Obj):
+                raise Unsupported("attribute assignment on a non-object")
+            setattr(base, t.attr, v)
         elif isinstance(t, (ast.Tuple, ast.List)):
             for e, x in zip(t.elts, v):
                 self._assign(e, x)
